@@ -29,7 +29,9 @@ import common
 PROP = "C02"
 HEADER = "From Coq Require Import ZArith List.\nImport ListNotations.\nFrom IBL.C02 Require Import Run."
 TRUSTED = [
-    "Coq 8.16.1 kernel + vm_compute (no native_compute); all C02 theorems: Closed under the global context",
+    "Coq 8.16.1 kernel + vm_compute (no native_compute); all C02 theorems closed under the global context except "
+    "C02_cbin_shape_eq_bin_shape (joint with C11, Flocq binary64: sig_forall_dec, sig_not_dec, "
+    "functional_extensionality_dep, classic)",
     "hand-written model coq/C02/Model.v of spikeglx.Reader.__init__/compress_file/decompress_file/"
     "decompress_to_scratch and of mtscomp 1.0.2 (Writer.write, Reader.tofile, chunk bounds, diff/cumsum codec), "
     "tied to the code by this run's correspondence (call traces, directory states, payload bytes)",
@@ -724,7 +726,7 @@ def _raw_kind(sr):
     return 3 if (cd is None or cd.closed) else 2
 
 
-def object_case(tdir, nc, n, cs, ns0, f0, ops, D, stem="rec_g0_t0.nidq", as_str=False):
+def object_case(tdir, nc, n, cs, ns0, f0, ops, D, stem="rec_g0_t0.nidq", as_str=False, iw=False, sort=True):
     """ops: list of op codes (see coq/C02/Run.v kind 3); ops[0] is the open() done by the constructor."""
     spikeglx, mtscomp = _imports()
     d = Path(tdir)
@@ -737,7 +739,7 @@ def object_case(tdir, nc, n, cs, ns0, f0, ops, D, stem="rec_g0_t0.nidq", as_str=
                      dtype=np.int16, chunk_duration=cs / FS, n_threads=1, check_after_compress=False)
     zc = rb.with_suffix(".cbin").stat().st_size
     bounds = json.loads(rb.with_suffix(".ch").read_text())["chunk_bounds"]
-    pr = spikeglx.Reader(rb)
+    pr = spikeglx.Reader(rb, sort=sort)
     seams = sorted({x for bnd in bounds for x in (bnd - 1, bnd, bnd + 1) if 0 <= x <= n})
     sels = [slice(None)] + [slice(a, e) for a in seams for e in seams if a < e][:40] + [i for i in seams if i < n]
     refv = [np.array(pr[sel]) for sel in sels]
@@ -769,7 +771,7 @@ def object_case(tdir, nc, n, cs, ns0, f0, ops, D, stem="rec_g0_t0.nidq", as_str=
             try:
                 if k == 0:
                     p0 = b if f0 == 1 else b.with_suffix(".cbin")
-                    sr = spikeglx.Reader(str(p0) if as_str else p0)
+                    sr = spikeglx.Reader(str(p0) if as_str else p0, open=(op == 0), ignore_warnings=iw, sort=sort)
                     warned = int(cap.hits > 0)
                 elif op == 0:
                     sr.open()
@@ -807,16 +809,18 @@ def object_case(tdir, nc, n, cs, ns0, f0, ops, D, stem="rec_g0_t0.nidq", as_str=
                 if sb_.exists() and sb_.read_bytes() != D.tobytes():
                     obs["problems"].append(("object_bytes", "%s is not the original binary byte for byte" % sb_))
             tag = "after call %d (%s)" % (k, OBJ_OPS[op])
-            # the property: the same object keeps exposing the recording
-            if ns0 == n and tuple(sr.shape) != (n, nc):
+            # the property: the same object keeps exposing the recording (once it has been opened, also
+            # when the meta file claims another length)
+            if (ns0 == n or rk in (1, 2)) and tuple(sr.shape) != (n, nc):
                 obs["problems"].append(("object_shape", "%s: shape %s, recording is %s" % (tag, tuple(sr.shape), (n, nc))))
             if int(sr.nbytes) != Path(sr.file_bin).stat().st_size:
                 obs["stale_nbytes"] += 1        # allowed only while pointing at x.cbin (nothing reads it there)
                 if fcode == 1:
                     obs["problems"].append(("object_nbytes", "%s: nbytes %d is not the size of x.bin" % (tag, sr.nbytes)))
-            if ns0 == n and warned:
-                obs["problems"].append(("object_warning", "%s: size-mismatch warning although meta data and file agree" % tag))
-            if op == 0 and raised and ns0 == n:
+            if warned and (ns0 == n or iw):
+                obs["problems"].append(("object_warning", "%s: size-mismatch warning although %s" % (
+                    tag, "ignore_warnings=True" if iw else "meta data and file agree")))
+            if op == 0 and raised:
                 obs["problems"].append(("object_open", "%s: open() raised" % tag))
             if op in (2, 4) and not raised and open_before and not sr.is_open:
                 obs["problems"].append(("object_unopened", "%s: the object was open before the in-place call and is not "
@@ -834,20 +838,30 @@ def object_case(tdir, nc, n, cs, ns0, f0, ops, D, stem="rec_g0_t0.nidq", as_str=
                     bad = ["raised %r" % (e,)]
                 if bad:
                     obs["problems"].append(("object_values", "%s: reads differ from the original: %s" % (tag, bad[:3])))
-        # fresh readers afterwards
+        # fresh readers afterwards, through every entry point that exists, with the same constructor options:
+        # same shape / ns / rl / values for x.bin, x.cbin and x.meta — whatever the meta file claims
         obs["meta_file"] = 0
         if sr is not None:
-            for path in (Path(sr.file_bin), b.with_suffix(".meta")):
-                try:
-                    s2 = spikeglx.Reader(path)
-                    if path.suffix == ".meta":
-                        obs["meta_file"] = {".bin": 1, ".cbin": 2}.get(Path(s2.file_bin).suffix, 9) if s2.file_bin else 0
-                    if ns0 == n and (tuple(s2.shape) != (n, nc) or not np.array_equal(np.array(s2[:, :]), refv[0])):
-                        obs["problems"].append(("object_fresh", "a fresh Reader(%s) after the sequence differs from the "
-                                                "original" % path.suffix))
-                    s2.close()
-                except Exception as e:
-                    obs["problems"].append(("object_fresh", "a fresh Reader(%s) after the sequence raised %r" % (path.suffix, e)))
+            entries = [q for q in (b, b.with_suffix(".cbin"), b.with_suffix(".meta")) if q.exists()]
+            for path in entries:
+                for opn in (True, False):
+                    try:
+                        s2 = spikeglx.Reader(str(path) if as_str else path, open=opn, ignore_warnings=iw, sort=sort)
+                        if not opn:
+                            s2.open()
+                        if path.suffix == ".meta" and opn:
+                            obs["meta_file"] = {".bin": 1, ".cbin": 2}.get(Path(s2.file_bin).suffix, 9) if s2.file_bin else 0
+                        if tuple(s2.shape) != (n, nc) or int(s2.ns) != n or abs(s2.rl - n / FS) > 1e-12 * max(1.0, n / FS):
+                            obs["problems"].append(("transparent_shape", "a fresh Reader(%s, open=%s, ignore_warnings=%s) "
+                                                    "after the sequence has shape %s, ns %s, rl %r; the recording is %s" % (
+                                                        path.suffix, opn, iw, tuple(s2.shape), s2.ns, s2.rl, (n, nc))))
+                        elif not np.array_equal(np.array(s2[:, :]), refv[0]) or not np.array_equal(np.array(s2._raw[0:n]), D):
+                            obs["problems"].append(("transparent_values", "a fresh Reader(%s) after the sequence reads other "
+                                                    "values than the original" % path.suffix))
+                        s2.close()
+                    except Exception as e:
+                        obs["problems"].append(("object_fresh", "a fresh Reader(%s, open=%s) after the sequence raised %r" % (
+                            path.suffix, opn, e)))
             try:
                 sr.close()
             except Exception:
@@ -862,11 +876,11 @@ def object_case(tdir, nc, n, cs, ns0, f0, ops, D, stem="rec_g0_t0.nidq", as_str=
 
 OBJ_OPS = ["open()", "compress_file(keep_original=True)", "compress_file(keep_original=False)",
            "decompress_file(keep_original=True)", "decompress_file(keep_original=False)",
-           "decompress_to_scratch(scratch_dir)", "decompress_to_scratch()"]
+           "decompress_to_scratch(scratch_dir)", "decompress_to_scratch()", "Reader(..., open=False)"]
 
 
-def enc_obj_in(nc, n, zc, ns0, f0, ops):
-    return [3, n, nc, zc, n, ns0, f0] + list(ops)
+def enc_obj_in(nc, n, zc, ns0, f0, ops, iw=False):
+    return [3, n, nc, zc, n, ns0, f0, int(iw)] + list(ops)
 
 
 def enc_obj_out(obs):
@@ -881,11 +895,14 @@ def gen_object_sequences(ctx):
     fixed = [(2, [0, 4, 0]), (2, [0, 4, 0, 2, 0, 4, 0]), (1, [0, 2, 0, 4, 0, 2, 0]), (1, [0, 2, 4, 0]), (2, [0, 5, 4, 0]),
              (2, [0, 5, 0, 3, 4, 0]), (1, [0, 1, 2, 0, 3, 0, 4, 0]), (2, [0, 3, 0, 4, 2, 0]), (1, [0, 5, 4, 1, 0]),
              (2, [0, 2, 1, 4, 4, 0, 5]), (2, [0, 5, 2, 0, 4, 5]), (2, [0, 6, 4, 6, 2, 0]), (1, [0, 6, 5, 2, 6, 0, 5]),
-             (2, [0, 6, 0, 4, 0]), (2, [0, 4, 5, 6])]
+             (2, [0, 6, 0, 4, 0]), (2, [0, 4, 5, 6]),
+             # constructor options x entry points: short sequences leaving bin, cbin or both behind
+             (1, [0]), (2, [0]), (1, [7, 0]), (2, [7, 0]), (1, [0, 1]), (2, [0, 3]), (1, [7, 1, 0]), (2, [7, 3, 0]),
+             (2, [7, 4, 0]), (1, [7, 2, 0]), (2, [7, 5, 0, 6])]
     seqs = list(fixed)
     for _ in range(40 if not ctx.thorough() else 400):
         ln = rng.randrange(2, 8)
-        seqs.append((rng.choice([1, 2]), [0] + [rng.choice([0, 0, 1, 2, 2, 3, 4, 4, 5, 6]) for _ in range(ln)]))
+        seqs.append((rng.choice([1, 2]), [rng.choice([0, 0, 7])] + [rng.choice([0, 0, 1, 2, 2, 3, 4, 4, 5, 6]) for _ in range(ln)]))
     return seqs
 
 
@@ -944,7 +961,8 @@ def model_file_code(obs):
 
 # --------------------------------------------------------------------------
 def run(ctx):
-    common.proof_obligations(ctx, whitelist=[])
+    # only C02_cbin_shape_eq_bin_shape (joint with C11's Flocq model) uses the stdlib axioms of the reals
+    common.proof_obligations(ctx, whitelist=sorted(common.STDLIB_AXIOMS))
     rng = ctx.rng
     root = common.tmpdir("C02_run_")
     inputs, outputs, descr = [], [], []
@@ -1084,15 +1102,17 @@ def run(ctx):
             cs = rng.choice([2, 3, 4, 5])
             n = max(1, rng.choice([1, 2, 3, 4]) * cs + rng.choice([-1, 0, 1, 2]))
             nc = rng.choice([1, 2, 3, 5, 8]) if i % 17 else 385
-            ns0 = n if rng.random() < 0.8 else n + rng.choice([1, 2, -1 if n > 1 else 1])
+            ns0 = n if rng.random() < 0.55 else max(1, n + rng.choice([1, 2, 7, -1, -2]))
+            iw, sort = rng.random() < 0.5, rng.random() < 0.7
             D = gen_data(rng, n, nc, rng.choice(["full", "small", "extremes"]))
             d = root / ("obj%d" % i)
             stem = rng.choice(["rec_g0_t0.nidq", "x", "x.imec0.ap", "_spikeglx_ephysData_g0_t0.imec1.lf", "a.b.c.d"])
             as_str = rng.random() < 0.4
             desc = {"kind": "object", "nc": nc, "n": n, "chunk_samples": cs, "meta_ns": ns0, "stem": stem, "str_path": as_str,
+                    "ignore_warnings": iw, "sort": sort,
                     "start": [".bin", ".cbin"][f0 - 1], "ops": ops, "calls": [OBJ_OPS[o] for o in ops]}
             try:
-                obs = object_case(d, nc, n, cs, ns0, f0, ops, D, stem, as_str)
+                obs = object_case(d, nc, n, cs, ns0, f0, ops, D, stem, as_str, iw, sort)
             except Exception as e:
                 ctx.fail("sequence on one Reader raised %r" % (e,), desc, {"kind": "object_exception"})
                 continue
@@ -1102,15 +1122,17 @@ def run(ctx):
                 ctx.fail(p, desc, {"kind": tag})
             if len(obs["steps"]) != len(ops):
                 continue
-            inputs.append(enc_obj_in(nc, n, obs["zc"], ns0, f0, ops))
+            inputs.append(enc_obj_in(nc, n, obs["zc"], ns0, f0, ops, iw))
+            dist["object_meta_wrong"] = dist.get("object_meta_wrong", 0) + (ns0 != n)
+            dist["object_ignore_warnings"] = dist.get("object_ignore_warnings", 0) + iw
             outputs.append(enc_obj_out(obs))
             descr.append(desc)
             dist["object_sequences"] = dist.get("object_sequences", 0) + 1
             dist["object_calls"] = dist.get("object_calls", 0) + len(ops)
             ctx.measurements["object_states_with_stale_nbytes"] = \
                 ctx.measurements.get("object_states_with_stale_nbytes", 0) + obs["stale_nbytes"]
-            if any(o in (2, 4) for o in ops):
-                nontrivial.add(("object", f0, tuple(ops), nc, n, cs, ns0))
+            if any(o in (2, 4) for o in ops) or ns0 != n:
+                nontrivial.add(("object", f0, tuple(ops), nc, n, cs, ns0, iw))
             if i in (0, 2):
                 samples.append({"kind": "object", "start": desc["start"], "calls": desc["calls"],
                                 "states[raised,file,nbytes,ns,raw,warned,bin,cbin,scratch_bin]": obs["steps"]})
@@ -1165,14 +1187,16 @@ def replay(ctx, data):
             D = gen_data(ctx.rng, inp["n"], inp["nc"], "full")
             f0 = [".bin", ".cbin"].index(inp["start"]) + 1
             obs = object_case(root / "o", inp["nc"], inp["n"], inp["chunk_samples"], inp["meta_ns"], f0, inp["ops"], D,
-                              inp.get("stem", "rec_g0_t0.nidq"), inp.get("str_path", False))
+                              inp.get("stem", "rec_g0_t0.nidq"), inp.get("str_path", False),
+                              inp.get("ignore_warnings", False), inp.get("sort", True))
             print("calls:", inp["calls"])
             print("implementation: states [raised,file,nbytes,ns,raw,warned,bin,cbin,scratch_bin]", obs["steps"],
                   "\n problems", obs["problems"])
             ids = [0]
             if len(obs["steps"]) == len(inp["ops"]):
                 ids = common.coq_mismatches(PROP, HEADER, [common.flat_cases_term(
-                    0, enc_obj_in(inp["nc"], inp["n"], obs["zc"], inp["meta_ns"], f0, inp["ops"]), enc_obj_out(obs))])
+                    0, enc_obj_in(inp["nc"], inp["n"], obs["zc"], inp["meta_ns"], f0, inp["ops"],
+                                  inp.get("ignore_warnings", False)), enc_obj_out(obs))])
             print("kernel-evaluated model agrees with implementation:", not ids)
             rc = 1 if (obs["problems"] or ids) else 0
         elif inp.get("kind") in ("procedure", "resolve"):
